@@ -1,5 +1,13 @@
 from . import normal_ded
+from .. import deductive
+from ..contracts import oraclewire as OW
 
 
 def run(tier):
-    return normal_ded.reports(('C17',))
+    reps = list(normal_ded.reports(('C17',)))
+    # which routine `belief_propagation` is bound to (convex flag -> Hazan-Peng-Shashua, otherwise generalised propagation)
+    for rel, q, c in OW.ITEMS:
+        if q == 'RegionGraph.__init__':
+            reps.append(deductive.verify_function(rel, q, c, hooks=OW.hooks_for(c), prefix='%s::%s[oracle wiring]' % (rel, q)))
+    reps.append(OW.frame_report())
+    return reps
